@@ -114,11 +114,12 @@ pub fn run_property<W: World>(cfg: &RunCfg) -> Report {
         run: Option<u64>,
         count: u64,
         ops: Vec<O>,
+        first_seeded: Option<u64>,
     }
     let mut cases: Vec<Case<W::Op>> = Vec::new();
     for (i, class) in &dfails {
         if !cases.iter().any(|c| &c.class == class) {
-            cases.push(Case { class: class.clone(), origin: format!("directed scenario '{}'", directed[*i].0), run: None, count: 1, ops: directed[*i].1.clone() });
+            cases.push(Case { class: class.clone(), origin: format!("directed scenario '{}'", directed[*i].0), run: None, count: 1, ops: directed[*i].1.clone(), first_seeded: None });
         } else if let Some(c) = cases.iter_mut().find(|c| &c.class == class) {
             c.count += 1;
         }
@@ -126,8 +127,9 @@ pub fn run_property<W: World>(cfg: &RunCfg) -> Report {
     for (class, (i, count)) in &batch.fail_classes {
         if let Some(c) = cases.iter_mut().find(|c| &c.class == class) {
             c.count += *count;
+            c.first_seeded = Some(*i);
         } else {
-            cases.push(Case { class: class.clone(), origin: format!("seeded run {} of VERIF_SEED {}", i, cfg.seed), run: Some(*i), count: *count, ops: regenerate::<W>(cfg.seed, *i) });
+            cases.push(Case { class: class.clone(), origin: format!("seeded run {} of VERIF_SEED {}", i, cfg.seed), run: Some(*i), count: *count, ops: regenerate::<W>(cfg.seed, *i), first_seeded: Some(*i) });
         }
     }
     let known = load_known(&cfg.root);
@@ -199,12 +201,14 @@ pub fn run_property<W: World>(cfg: &RunCfg) -> Report {
             continue;
         }
         lines.push(format!("VIOLATION property={} replay={}", W::id(), path.display()));
-        lines.push(format!("  class={} origin={} failing_runs_seen={} minimised {} -> {} ops: {}", v.class, case.origin, case.count, original_len, min.ops.len(), v.detail));
+        let fs = case.first_seeded.map(|i| i.to_string()).unwrap_or_else(|| "none".into());
+        lines.push(format!("  class={} origin={} first_failing_seeded_run={} failing_runs_seen={} minimised {} -> {} ops: {}", v.class, case.origin, fs, case.count, original_len, min.ops.len(), v.detail));
         vjson.push(
             J::obj()
                 .with("class", J::str(&v.class))
                 .with("origin", J::str(&case.origin))
                 .with("failing_runs_seen", J::u(case.count))
+                .with("first_failing_seeded_run", case.first_seeded.map(J::u).unwrap_or(J::Null))
                 .with("replay", J::str(&path.display().to_string()))
                 .with("minimised_ops", J::u(min.ops.len() as u64))
                 .with("detail", J::str(&v.detail)),
